@@ -93,6 +93,13 @@ func c15Enum(thorough bool, f func(k c15Case)) {
 		ld := LayoutByTag(tag)
 		headers = append(headers, wsp.Layout{Archs: ld.Archs, Method: []uint32{2, 5, 1}[i], XFF: 0.5}.EncodeHeader())
 	}
+	// intact headers with xFilesFactor 0 and the methods that index their input (last, min, first, max), used only
+	// over damaged bodies below
+	var intact [][]byte
+	for i, tag := range []string{"L5", "L8", "L6", "L7"} {
+		ld := LayoutByTag(tag)
+		intact = append(intact, wsp.Layout{Archs: ld.Archs, Method: []uint32{3, 6, 5, 4}[i], XFF: 0}.EncodeHeader())
+	}
 	series := func(from, until, step uint32, n int) []byte {
 		b := binary.BigEndian.AppendUint32(nil, from)
 		b = binary.BigEndian.AppendUint32(b, until)
@@ -204,6 +211,8 @@ func c15Enum(thorough bool, f func(k c15Case)) {
 		}
 		mutate32("Header", h, len(h)/4, asFile)
 		asFile(h)
+	}
+	for _, h := range append(append([][]byte{}, headers...), intact...) {
 		// an intact header over a body whose intervals sit at every offset around the clock (damaged base intervals)
 		decl := bodyLens(h)[3]
 		for delta := -9; delta <= 9; delta++ {
